@@ -230,9 +230,20 @@ func NewOrderByExpr(scanner parser.Scanner, a, key Expr) Expr {
 func NewOrderExpr(scanner parser.Scanner, a, key Expr) Expr {
 	key = ExprAsFunction(key)
 	return newBinExpr(scanner, a, key, "order", "(%s orderby %s)",
-		func(ctx context.Context, a, less Value, local Scope) (Value, error) {
+		func(ctx context.Context, a, less Value, local Scope) (_ Value, err error) {
 			if x, ok := a.(Set); ok {
 				if l, ok := less.(Closure); ok {
+					// The comparator cannot return an error through sort, so it panics with
+					// one; turn that back into an error instead of crashing the process.
+					defer func() {
+						if r := recover(); r != nil {
+							e, isErr := r.(error)
+							if !isErr {
+								panic(r)
+							}
+							err = e
+						}
+					}()
 					values, err := OrderBy(x,
 						func(value Value) (Value, error) {
 							return value, nil
@@ -242,7 +253,11 @@ func NewOrderExpr(scanner parser.Scanner, a, key Expr) Expr {
 							if err != nil {
 								panic(err)
 							}
-							less, err := SetCall(ctx, c.(Closure), b)
+							cl, isClosure := c.(Closure)
+							if !isClosure {
+								panic(errors.Errorf("'order' function must return a function, not %s", ValueTypeAsString(c)))
+							}
+							less, err := SetCall(ctx, cl, b)
 							if err != nil {
 								panic(err)
 							}
